@@ -13,7 +13,7 @@ import FV.Proofs.Alloc
   and every guarded call strictly increases the number of cells.
 -/
 namespace FV.C12
-open FV FV.Rect FV.C18
+open FV FV.Alloc FV.Rect FV.C18
 set_option linter.unusedSectionVars false
 set_option linter.unusedSimpArgs false
 set_option linter.unusedVariables false
